@@ -340,7 +340,7 @@ pub fn run(a: &Args, rep: &mut Report) {
         tree_case(rep, &mut r, initial, d, m, false);
     }
     // single-step mode: real pushfq emulation, no hook involved (small trees: every instruction traps)
-    let n = a.budget(300, 60_000);
+    let n = a.budget(300, 4_000);
     for _ in 0..n {
         let initial = r.chance(2, 3);
         let (d, m) = (1 + r.below(4) as u32, 1 + r.below(12) as u32);
